@@ -3,7 +3,7 @@ from facts import AnalysisBroken
 from model import dstr, strip, fact_holds, mentions_field, mentions_call, mentions_var, const_value
 from props.scan_common import check_build_exit_codes
 from rules import (guarded, calls_to, field_writes, who_may_write, error_discipline, atom_cmp,
-                   is_enum, is_var, is_field, has_field, anything, must_pass, basename, origins)
+                   is_enum, is_var, is_field, has_field, anything, must_pass, basename, origins, deep_resolve)
 
 STATUS = 'BuildResult::CommandCompleted::status'
 
@@ -349,6 +349,13 @@ def run(ctx):
                 (const_value(d['r']) or 0) >= 128)
             ctx.check('C05.G4', nonzero, pes.name, 'non-exit-return:maybe-success', pes.where(e),
                       'abnormal termination maps to a non-success status (`%s`)' % e.get('src'))
+    # the other direction: a command that exited normally reports its own exit code, whatever it is - only a wait
+    # status that says "killed by SIGINT/SIGTERM/SIGHUP" means interrupted (an exit code 130/143 is a plain failure:
+    # it gets its FAILED block, counts against -k, and does not stop the build as "interrupted by user")
+    for e in pes.events('ret'):
+        if fact_holds(pes.facts_at(e), wifexited, True):
+            ctx.check('C05.G4', is_wexitstatus(deep_resolve(pes, e.get('e'))), pes.name, 'WIFEXITED:status-not-transparent', pes.where(e),
+                      'under WIFEXITED the exit code is returned as it is (`%s`)' % (e.get('src') or '')[:60])
     for f, e in calls_to(prog, 'ParseExitStatus'):
         ctx.check('C05.G4', not e.get('disc'), f.name, 'ParseExitStatus:discarded', f.where(e),
                   'the parsed status is stored (%s)' % f.name)
